@@ -928,6 +928,11 @@ class VizierServicer(vizier_service_pb2_grpc.VizierServiceServicer):
             vector_value = trial_metric_id_to_value[metric_id]
           objective_vector.append(vector_value)
 
+        # A NaN objective is not a number: it can be neither compared nor
+        # optimal.
+        if np.isnan(objective_vector).any():
+          continue
+
         considered_trials.append(trial)
         considered_trial_objective_vectors.append(objective_vector)
 
